@@ -203,7 +203,7 @@ def file_writer_level(R, ctx):
                 bad = f"Active state: steps {ns}, documented {exp} (flush of the active writer)"
         elif ns:
             bad = f"Initial state: steps {ns}"
-    R.check('R04.1', f"{path}|table", not bad and len(rows) == 3, "Active: [cleanup shutdown,] flush of the active writer; Initial: nothing",
+    R.check('R04.1', f"{path}|table", not bad and len(rows) >= 3, "Active: [cleanup shutdown,] flush of the active writer; Initial: nothing",
             f"State::shutdown: {bad}", where=b.loc())
 
     path = 'writers::file_log_writer::state::State::flush'
@@ -216,7 +216,7 @@ def file_writer_level(R, ctx):
             bad = 'UNDECIDED: ' + r.undecided
         elif r.get('variant(self.inner)') == 'Active' and (ns != ['flush'] or not r.effects[0][1][0].endswith('.inner.1') or 'flush#1' not in repr(r.result)):
             bad = f"Active: steps {ns}, result {r.result!r}; documented: flush the active writer and return its result"
-    R.check('R04.1', f"{path}|table", not bad and len(rows) == 2, "Active: Write::flush of the active writer, result returned", f"State::flush: {bad}", where=b.loc())
+    R.check('R04.1', f"{path}|table", not bad and len(rows) >= 2, "Active: Write::flush of the active writer, result returned", f"State::flush: {bad}", where=b.loc())
 
     path = 'writers::file_log_writer::state_handle::StateHandle::flush'
     EFF = [r'State::flush$', r'pop_buffer$', r'Extend<.*>>::extend$', r'Sender::<T>::(send|try_send)$', r'Mutex::<T>::lock$', r'Vec::<T, A>::(push|extend_from_slice)$']
